@@ -8,7 +8,7 @@
 (*          two parameters differ numerically on this input ("nb" list)    *)
 (*  res   : one result of one test on an extreme / seeded input: ResultOK  *)
 (***************************************************************************)
-EXTENDS Integers, Sequences, TLC, Json, Registry
+EXTENDS Integers, Sequences, TLC, Json, Registry, BitSeq
 Trace == ndJsonDeserialize("trace.ndjson")
 VARIABLE l
 Same(a, b) == a.Pb = b.Pb /\ a.Qb = b.Qb /\ a.P2b = b.P2b /\ a.Q2b = b.Q2b
@@ -25,9 +25,13 @@ RegOK(e) ==
    /\ \A i \in 1..15 : ResultOK(Tests[i], e.runners[i], TRUE)
    /\ e.readgroup = TRUE /\ e.mutated = FALSE
 ResOK(e) == e.panic = "" /\ e.t \in {Tests[i] : i \in 1..15} /\ ResultOK(e.t, e.r, e.isrunner) /\ e.mutated = FALSE
+\* bytes: B2bit expands most-significant-bit first, B2Byte inverts it, B2bitArr concatenates (BitSeq!ByteBits / BytesToBits)
+BytesOK(e) == /\ Len(e.rows) = 256 /\ Len(e.back) = 256
+              /\ \A b \in 0..255 : e.rows[b + 1] = ByteBits(b) /\ e.back[b + 1] = b
+              /\ e.arr = BytesToBits(e.arrbytes)
 Init == l = 1
 Step == /\ l <= Len(Trace)
-        /\ LET e == Trace[l] IN CASE e.ev = "reg" -> RegOK(e) [] e.ev = "res" -> ResOK(e) [] OTHER -> FALSE
+        /\ LET e == Trace[l] IN CASE e.ev = "reg" -> RegOK(e) [] e.ev = "res" -> ResOK(e) [] e.ev = "bytes" -> BytesOK(e) [] OTHER -> FALSE
         /\ l' = l + 1
 Spec == Init /\ [][Step]_l
 Accepted == TLCGet("stats").diameter - 1 = Len(Trace)
